@@ -660,9 +660,9 @@ pub fn run_bundle(b: &Value) -> Vec<PanicInfo> {
             if stride == 1 && body.len() > 4096 {
                 continue;
             }
-            if stride == 7 && body.len() > 300000 {
-                continue;
-            }
+            // (a construct held back across calls is re-tokenised on every call: a 290 KB tag in 7-byte chunks is ~6 GB of
+            // tokenising, seconds on a quiet machine and a timeout on a loaded one - big bodies get 4 KiB chunks instead)
+            let stride = if stride == 7 && body.len() > 50000 { 4096 } else { stride };
             let filter = g.run("Action::create_filter_body", || action.create_filter_body(code, &resp_headers)).flatten();
             if let Some(mut f) = filter {
                 g.run(&format!("FilterBodyAction::filter+end[stride={}]", if stride == usize::MAX { "all".to_string() } else { stride.to_string() }), || {
@@ -1206,8 +1206,9 @@ pub fn run(tier: Tier) -> i32 {
     let done = AtomicU64::new(0);
     let entries_run = AtomicU64::new(0);
     let deep = AtomicU64::new(0);
+    let timeouts = AtomicU64::new(0);
     let machinery: Mutex<Vec<String>> = Mutex::new(Vec::new());
-    let timeout = Duration::from_secs(20);
+    let timeout = Duration::from_secs(std::env::var("VERIF_C07_TIMEOUT_S").ok().and_then(|s| s.parse().ok()).unwrap_or(60));
     let started = Instant::now();
     std::thread::scope(|s| {
         for _ in 0..ctx.threads {
@@ -1218,6 +1219,11 @@ pub fn run(tier: Tier) -> i32 {
                 }
                 if ctx.over_budget() {
                     ctx.set_capped(format!("wall budget {}s: {} of {} cases run", ctx.budget_s(), done.load(Ordering::Relaxed), n));
+                    break;
+                }
+                if timeouts.load(Ordering::Relaxed) >= 4 {
+                    // every further case that hangs costs two timeouts: the violations found so far are reported, the rest is not run
+                    ctx.set_capped(format!("stopped after 4 reproducible timeouts: {} of {} cases run", done.load(Ordering::Relaxed), n));
                     break;
                 }
                 let mut todo: Vec<usize> = (start..(start + batch).min(n)).collect();
@@ -1246,7 +1252,12 @@ pub fn run(tier: Tier) -> i32 {
                             _ => {
                                 let again = run_batch(tier, &[*idx], true, timeout);
                                 match again.into_iter().next() {
-                                    Some((_, o @ (Outcome::Died(_) | Outcome::Timeout), e)) => (Some(o), e),
+                                    Some((_, o @ (Outcome::Died(_) | Outcome::Timeout), e)) => {
+                                        if matches!(o, Outcome::Timeout) {
+                                            timeouts.fetch_add(1, Ordering::Relaxed);
+                                        }
+                                        (Some(o), e)
+                                    }
                                     Some((_, Outcome::Done(p, n), _)) => {
                                         // did not reproduce in isolation: not attributed to the subject
                                         machinery.lock().unwrap().push(format!("worker death did not reproduce in isolation for {}", describe(case)));
